@@ -110,11 +110,23 @@ def run(ctx):
             found[len(s)] = s
     sentences += list(found.values())
     for si, sent in enumerate(sentences):
-        for pw in ([b"", b"TREZOR", bytes([0xE2, 0x82, 0xAC, 0xFF, 0x00])] if si < 2 or not q else [b"pw"]):
+        pws = [b"", b"TREZOR", bytes([0xE2, 0x82, 0xAC, 0xFF, 0x00])] if si < 2 or not q else [b"pw"]
+        if si == 0:
+            # byte passphrases that are well-formed UTF-8 but not NFKD-normal (the salt is the bytes as given, whatever they decode to)
+            pws += ["caf\u00e9".encode(), "a\u00a0b".encode(), "\ufb01n".encode(), "\uff21\uff22".encode(), "\ud55c\uae00".encode(), "\u212b".encode()]
+        if si <= 1:
+            # passphrases whose PBKDF2 output starts with one (two) zero bytes: found by search with hashlib
+            want_zero = 2 if (si == 0 and not q) else 1
+            for t_ in range(200000):
+                cand = b"z%d" % t_
+                if hashlib.pbkdf2_hmac("sha512", sent.encode(), b"mnemonic" + cand, 2048, 64)[:want_zero] == bytes(want_zero):
+                    pws.append(cand)
+                    break
+        for pw in pws:
             sk = outcome(H.hmac_sha512_kdf, sent, b"mnemonic" + pw)
             mk = outcome(hd.HDPrivateKey.from_mnemonic, sent, pw)
             m2 = outcome(hd.HDPrivateKey.from_seed, hashlib.pbkdf2_hmac("sha512", sent.encode(), b"mnemonic" + pw, 2048, 64))
-            cases.append({"id": "s%d.%d" % (si, len(pw)), "kind": "seed", "sentence": B(sent.encode()), "pass": B(pw), "res": mk[0], "seed": B(sk[1]) if sk[0] == "ok" else [],
+            cases.append({"id": "s%d.%d.%s" % (si, len(pw), pw[:6].hex()), "kind": "seed", "sentence": B(sent.encode()), "pass": B(pw), "res": mk[0], "seed": B(sk[1]) if sk[0] == "ok" else [],
                           "master": [ord(c) for c in mk[1].xprv()] if mk[0] == "ok" else [], "master_from_seed": [ord(c) for c in m2[1].xprv()] if m2[0] == "ok" else [0],
                           "hr": [pb_row(sent.encode(), b"mnemonic" + pw)]})
             ctx.nontriv(("seed", len(sent) if len(sent) in (127, 128, 129) else "other", len(pw)))
@@ -144,6 +156,18 @@ def run(ctx):
         rows = [{"in": B(k_) + [-3] + B(m_), "out": B(pyhmac.new(k_, m_, hashlib.sha512).digest())} for k_, m_, _ in calls]
         cases.append({"id": "pb%d" % pi, "kind": "pbkdf", "P": B(P), "S": B(S), "rounds": rounds, "dklen": dklen, "hr": rows, "out": B(out[1]) if out[0] == "ok" else []})
         ctx.nontriv(("pbkdf", rounds, dklen, plen))
+    # blocks T_i that start with zero bytes (found by search over salts at one and two rounds): every read must still return them whole
+    for zi, (rounds, which) in enumerate([(1, 0), (2, 0), (1, 1), (3, 0)]):
+        P = rb(12)
+        for t_ in range(100000):
+            S = b"salt%d" % t_
+            ref = hashlib.pbkdf2_hmac("sha512", P, S, rounds, 128)
+            if ref[64 * which] == 0:
+                break
+        o = PBKDF2(P, S, iterations=rounds, macmodule=pyhmac, digestmodule=hashlib.sha512)
+        got = outcome(lambda: o.read(64) + o.read(64))
+        cases.append({"id": "zb%d" % zi, "kind": "eq", "a": B(got[1]) if got[0] == "ok" else [0], "b": B(ref), "what": "pbkdf2-block-with-leading-zero-byte"})
+        ctx.nontriv(("pbkdf-zero-block", rounds, which))
     # (A) read sequences of the stream model on the real object
     P, S = rb(20), rb(8)
     whole = PBKDF2(P, S, iterations=2, macmodule=pyhmac, digestmodule=hashlib.sha512).read(200)
